@@ -83,6 +83,7 @@ def dispatch (st : DState) (toks : List String) : DState × String :=
   | ["S", "ctflatown"] => (st, "ok")
   | ["S", "attributed"] => (st, "ok")
   | ["S", "jran"] => (st, "ok")
+  | ["S", "det-interleaved"] => (st, "same")
   | ["S", "wf-any-history"] => (st, "ok")
   | ["S", "solstring-sequence"] => (st, "ok")
   | ["S", "pops-same"] => (st, "same")
